@@ -150,6 +150,9 @@ func c10Twin(t *rapid.T, s c10Sess, a c10Attrs, i int) c10Attrs {
 	modes := []int{0, 2, 3}
 	if !s.asn4 {
 		modes = append(modes, 1)
+		if a.aggr != nil {
+			modes = append(modes, 4, 4)
+		}
 	}
 	switch rapid.SampledFrom(modes).Draw(t, l) {
 	case 0:
@@ -166,6 +169,10 @@ func c10Twin(t *rapid.T, s c10Sess, a c10Attrs, i int) c10Attrs {
 		} else {
 			a.unknown = nil
 		}
+	case 4:
+		ag := *a.aggr
+		ag.Address ^= 0x100
+		a.aggr = &ag
 	case 3:
 		if a.localPref == 100 {
 			a.localPref = 200
